@@ -22,7 +22,10 @@ for dd in sorted(glob.glob(os.path.join(D, 'C*/'))):
         seen.setdefault(h, (df, head, body))
 print('%d distinct surviving mutants' % len(seen))
 out = []
-for h, (df, head, body) in seen.items():
+
+
+def one(item):
+    h, (df, head, body) = item
     name = os.path.basename(df)[:-5]
     # which file / function?  file from the per-property json
     prop = os.path.basename(os.path.dirname(df))
@@ -33,7 +36,7 @@ for h, (df, head, body) in seen.items():
         if name.startswith(tag) and r['desc'] in head:
             rec = r
     if rec is None:
-        continue
+        return
     S = tempfile.mkdtemp(prefix='ampost_', dir='/tmp')
     try:
         files = subprocess.run(['git', '-C', REPO, 'ls-files', '-z', 'dataflows'], capture_output=True).stdout.split(b'\0')
@@ -48,7 +51,7 @@ for h, (df, head, body) in seen.items():
         p = subprocess.run(['patch', '-s', tgt], input=body, capture_output=True, text=True)
         if p.returncode != 0:
             print('cannot re-apply', name, p.stdout[-100:])
-            continue
+            return
         key = '%s::%s' % (rec['file'], rec['fn'])
         props = sorted(fn2props.get(key, {prop}))
         res = {}
@@ -62,5 +65,10 @@ for h, (df, head, body) in seen.items():
         print('%-7s %s %s L%d %s %s' % ('CAUGHT' if caught else 'LIVE', os.path.basename(rec['file']), rec['fn'], rec['line'], rec['desc'][:50], res), flush=True)
     finally:
         shutil.rmtree(S, ignore_errors=True)
+
+
+from concurrent.futures import ThreadPoolExecutor
+with ThreadPoolExecutor(3) as ex:
+    list(ex.map(one, list(seen.items())))
 json.dump(out, open(os.path.join(D, 'final.json'), 'w'), indent=1)
 print('LIVE: %d of %d' % (sum(1 for x in out if not x['caught']), len(out)))
